@@ -17,15 +17,16 @@ CHECK_FN = 'check_case'
 SHARD = 200
 ANCHOR_FILES = ['proxy/common/utils.py', 'proxy/http/parser/parser.py', 'proxy/http/parser/chunk.py', 'proxy/http/responses.py']
 RULE = ('cases = builder arguments (methods, origin/absolute/authority targets, versions, 0-6 headers in any spelling incl. '
-        'caller-supplied content-length / connection / user-agent / transfer-encoding, content_type, conn_close, no_ua / no_cl, '
-        'status codes incl. 1xx/204/304, reasons None/empty/with spaces, bodies None/empty/binary/framing look-alikes/large '
-        'periodic ones > 128 KiB) for build_http_request/response; wire messages from the grammar generator (Content-Length in any '
-        'spelling, chunk layouts with extensions/trailers, empty chunked body) and mutated ones, parsed and rebuilt with '
-        'build(disable_headers, for_proxy, host)/build_response; update_body on parsed messages with gzip/other/no '
-        'content-encoding, chunked or not; chunked streams (valid layouts + tails, mutations) for the reference decoder; '
-        '(body, chunk size) pairs for to_chunks.  Every built/rebuilt/mutated message is also judged by wf_message (in Coq) '
-        'against h11.  non-trivial = the implementation returned bytes (no exception) and the message has a header or a body; '
-        'distinct = distinct inputs')
+        'caller-supplied content-length / connection / user-agent / content-type / transfer-encoding, content_type, conn_close, '
+        'no_ua / no_cl, status codes incl. 1xx/204/304/999, reasons None/empty/with (leading) spaces, bodies None/empty/binary/'
+        'framing look-alikes/periodic ones of 131071..262145 bytes) for build_http_request/response, plus arguments damaged in 9 ways '
+        '(correspondence only); wire messages of the grammar generator (Content-Length in any spelling, chunk layouts with '
+        'extensions/trailers/leading zeros, empty chunked body) and 10 kinds of mutations, parsed and rebuilt with '
+        'build(disable_headers, for_proxy, host)/build_response; update_body on parsed messages x Content-Encoding '
+        '{none,gzip,GZIP,br,identity} x {Content-Length, chunked}; chunked streams (valid layouts + tails, mutations) for the '
+        'reference decoders; (body, chunk size) pairs for to_chunks.  Every built/rebuilt/mutated message inside the comparable '
+        'domain is also judged by wf_message (in Coq) against h11.  non-trivial = the implementation returned bytes (no exception) '
+        'and the message has a header or a body (dechunk: the reference accepts a non-empty body); distinct = distinct inputs')
 TRUSTED = ['CPython semantics of dict insertion order, bytes.lower/strip/split, str(int), "{:x}".format as modelled in Lib/PyStr.v',
            'gzip enters the model as a function gz with the single assumed law gunz (gz x) = x; zlib is the oracle for it',
            'RFC 7230 as transcribed in Http/Grammar.v (wf_message, chunked grammar), cross-validated on every run against h11 0.16',
@@ -765,6 +766,8 @@ def oracle(case, out):
             return 'message rebuilt after update_body does not parse to a complete message'
         if (q['body'] or b'') != want:
             return 'message rebuilt after update_body carries body %r, expected %r' % ((q['body'] or b'')[:50], want[:50])
+        if case['ptype'] == 2 and (p['code'] or b'').isdigit() and (int(p['code']) < 200 or int(p['code']) in (204, 304)):
+            return None     # 1xx/204/304 never carry a body for an RFC 7230 recipient: giving them one is outside the property
         h = h11_message(case['ptype'], out['raw'])
         if not h['ok']:
             return 'h11 rejects the message rebuilt after update_body: %s' % h.get('why')
